@@ -34,6 +34,7 @@ WRAP = ["read", "write", "pread", "pwrite", "pread64", "pwrite64", "lseek", "lse
 ISTREAM_C = "lib/sqfs/src/io/istream.c"
 OSTREAM_C = "lib/sqfs/src/io/ostream.c"
 SMALL_B = [1, 7, 64]
+HARNESS_TIMEOUT = 600     # seconds per harness process; an idle machine needs < 5 s (quick) / < 60 s (thorough)
 
 
 # ------------------------------------------------------------------------------------------------ tokens
@@ -194,9 +195,15 @@ def gen_istream(rng, B, big):
     ops = []
     style = rng.random()
     nops = rng.randint(1, 10)
+    if not big and style >= 0.85:             # tar-like client: records with padding, reads and skips over ≥ 512-byte content
+        n = rng.choice([511, 512, 513, 1023, 1024, 1025, rng.randint(500, 2100)])
+        d = "g%d:%d:%d" % (rng.randint(0, 999), n, rng.choice([0, 3]))
     for _ in range(nops):
         r = rng.random()
-        if style < 0.3:                       # line reader
+        if not big and style >= 0.85:
+            sz = rng.choice([1, 5, 17, 100, 511, 512, 513, rng.randint(1, 700)])
+            ops.append(rng.choice(["M%d", "M%d", "R%d", "S%d", "P%d"]) % sz)
+        elif style < 0.3:                     # line reader
             ops.append("L%d" % rng.randint(0, 7))
         elif style < 0.5:                     # raw window client
             w = rng.choice([0, 1, around(rng, B), rng.randint(0, 2 * B + 2)])
@@ -321,7 +328,7 @@ def run_harness(ctx, h, lines):
     """→ (outputs, crash) ; a sanitizer abort / signal / timeout is a result, located by the number of lines answered"""
     text = "\n".join(lines) + "\n"
     try:
-        r = vlib.sh([str(h)], input=text, env=ctx.san_env(), timeout=900)
+        r = vlib.sh([str(h)], input=text, env=ctx.san_env(), timeout=HARNESS_TIMEOUT)
     except subprocess.TimeoutExpired as e:
         out = (e.stdout or b"")
         out = out.decode() if isinstance(out, bytes) else out
@@ -471,7 +478,7 @@ def inprocess(ctx, hs, B, small):
         scen.append(gen_ostream(rng, True))
         scen.append(gen_istream(rng, B, True))
         scen.append(gen_istream(rng, B, True))
-    jobs = 6 if quick else 12
+    jobs = 3 if quick else 6          # scenarios are independent; kept moderate (other checks run concurrently)
     # group by harness binary
     groups = {}
     for sc in scen:
